@@ -29,6 +29,9 @@ func init() {
 			{Name: "revert-F13-negative-size", File: "pkg/trait/hailpb/model_server.go", Old: "\tif request.GetPageSize() < 0 {\n\t\treturn nil, status.Error(codes.InvalidArgument, \"page_size must not be negative\")\n\t}\n", New: "", Expect: "R15.1"},
 			{Name: "revert-F14-token-unbounded", File: "pkg/trait/wastepb/model_server.go", Old: "\t\tif startIndex < 0 || startIndex > m.model.GetWasteRecordCount() {\n\t\t\treturn nil, status.Error(codes.InvalidArgument, \"bad page token\")\n\t\t}\n", New: "", Expect: "R15.3"},
 			{Name: "clamp-negatives-to-default", Silent: true, File: "pkg/trait/hailpb/pages.go", Old: "\tif pageSize == 0 {\n\t\treturn defaultPageSize\n\t}", New: "\tif pageSize <= 0 {\n\t\treturn defaultPageSize\n\t}"},
+			{Name: "waste-no-cap", File: "pkg/trait/wastepb/model_server.go", Old: "\t} else if count > 1000 {\n\t\tcount = 1000\n\t}", New: "\t}", Expect: "R15.1"},
+			{Name: "waste-token-when-not-full", File: "pkg/trait/wastepb/model_server.go", Old: "\tif int(count) == len(resp.WasteRecords) {", New: "\tif int(count) >= len(resp.WasteRecords) {", Expect: "R15.4"},
+			{Name: "waste-cap-written-as-switch", Silent: true, File: "pkg/trait/wastepb/model_server.go", Old: "\tif count == 0 {\n\t\tcount = 50\n\t} else if count > 1000 {\n\t\tcount = 1000\n\t}", New: "\tswitch {\n\tcase count == 0:\n\t\tcount = 50\n\tcase count >= 1000:\n\t\tcount = 1000\n\t}"},
 			{Name: "parent-sorted-descending", File: "pkg/trait/parentpb/model_server.go", Old: "\t\treturn all[i].Name < all[j].Name", New: "\t\treturn all[i].Name > all[j].Name", Expect: "R15.4"},
 		},
 	})
@@ -529,6 +532,19 @@ func flowsToIfNil(v ssa.Value) []*ssa.If {
 	return out
 }
 
+func stripIntConv(v ssa.Value) ssa.Value {
+	for {
+		switch x := v.(type) {
+		case *ssa.Convert:
+			v = x.X
+		case *ssa.ChangeType:
+			v = x.X
+		default:
+			return v
+		}
+	}
+}
+
 func r15waste(c *an.Ctx) {
 	h := mustFunc(c, "R15.1", "pkg/trait/wastepb", "ModelServer", "ListWasteRecords")
 	m := mustFunc(c, "R15.3", "pkg/trait/wastepb", "Model", "ListWasteRecords")
@@ -547,6 +563,77 @@ func r15waste(c *an.Ctx) {
 	}
 	c.Check(negativeRejected(c, h, call), "R15.1", hn+"|negative page sizes are rejected before use", call.Pos(), "",
 		"a negative page_size is neither rejected nor normalised: the model's loop ends after the first record, so the page has 1 record although a negative size was requested, and no error status is returned")
+	// R15.1 (waste): the count handed to the model lies in [1, 1000] whatever the request says
+	lo, hi, okLo, okHi := an.IntBounds(call.Call.Args[2], call)
+	c.Check(okLo && okHi && lo >= 1 && hi <= 1000, "R15.1", hn+"|the count given to the model is within [1, 1000]", call.Pos(), fmt.Sprintf("bounds [%d,%d]", lo, hi),
+		fmt.Sprintf("the count passed to Model.ListWasteRecords is not bounded to [1,1000] by the handler (lower bound known=%v %d, upper bound known=%v %d): a page can exceed the cap, or the handler's `page is full` test compares with a size the model never returns so the token chain ends early", okLo, lo, okHi, hi))
+	// R15.4 (waste): the next token is start - count, handed out only when the page is full and records remain;
+	// count is the very value given to the model
+	cnt := stripIntConv(call.Call.Args[2])
+	okTok := false
+	an.Instrs(h, func(in ssa.Instruction) {
+		st, ok := in.(*ssa.Store)
+		if !ok {
+			return
+		}
+		if _, _, f, isF := an.FieldOf(st.Addr); !isF || f != "NextPageToken" {
+			return
+		}
+		itoa, ok := st.Val.(*ssa.Call)
+		if !ok || an.CalleeName(itoa) != "strconv.Itoa" {
+			return
+		}
+		sub, ok := stripIntConv(itoa.Call.Args[0]).(*ssa.BinOp)
+		if !ok || sub.Op != token.SUB || stripIntConv(sub.Y) != cnt || !an.SameValue(stripIntConv(sub.X), stripIntConv(call.Call.Args[1])) {
+			return
+		}
+		full, remain := false, false
+		for _, e := range an.GuardingEdges(st) {
+			bo, ok := e.If.Cond.(*ssa.BinOp)
+			if !ok {
+				continue
+			}
+			if bo.Op == token.EQL && e.Branch {
+				for _, pair := range [][2]ssa.Value{{bo.X, bo.Y}, {bo.Y, bo.X}} {
+					if stripIntConv(pair[0]) != cnt {
+						continue
+					}
+					if ln, ok := pair[1].(*ssa.Call); ok && an.CalleeName(ln) == "builtin len" {
+						full = true
+					}
+				}
+			}
+			if k, isC := an.ConstInt(bo.Y); isC && k == 0 && bo.Op == token.GTR && e.Branch {
+				if s2, ok := stripIntConv(bo.X).(*ssa.BinOp); ok && s2.Op == token.SUB && stripIntConv(s2.Y) == cnt {
+					remain = true
+				}
+			}
+		}
+		okTok = full && remain
+	})
+	c.Check(okTok, "R15.4", hn+"|next token is start - count, only when the page is full and records remain", h.Pos(), "", "next_page_token is not strconv.Itoa(start - count) guarded by count == len(page) and start - count > 0, with count the value given to the model")
+	// R15.6 (waste): the model's loop stops at exactly `count` records: the exit compares the number
+	// of collected records with the count parameter itself
+	okLoop := false
+	if len(m.Params) == 3 {
+		an.Instrs(m, func(in ssa.Instruction) {
+			iff, ok := in.(*ssa.If)
+			if !ok {
+				return
+			}
+			bo, ok := iff.Cond.(*ssa.BinOp)
+			if !ok {
+				return
+			}
+			if ln, isLen := bo.X.(*ssa.Call); isLen && an.CalleeName(ln) == "builtin len" && bo.Op == token.GEQ && bo.Y == ssa.Value(m.Params[2]) {
+				okLoop = true
+			}
+			if ln, isLen := bo.X.(*ssa.Call); isLen && an.CalleeName(ln) == "builtin len" && bo.Op == token.EQL && bo.Y == ssa.Value(m.Params[2]) {
+				okLoop = true
+			}
+		})
+	}
+	c.Check(okLoop, "R15.6", mn+"|the page ends at exactly count records", m.Pos(), "", "the model's collecting loop does not stop by comparing the number of collected records with its count parameter (unaltered): the handler's `page is full` test assumes exactly min(count, remaining) records")
 	// R15.3: the index into allWasteRecords derives from `start`; it must be bounded by the length
 	idxOK := true
 	n := 0
